@@ -61,6 +61,7 @@ public:
 
 protected:
     CodePrinterPrecision precision_;
+    PrecedenceEnum get_precedence(const RCP<const Basic> &x) override;
     std::string print_scalar_literal(double d) const;
     std::string print_math_function(const std::string &name) const;
     virtual std::string
